@@ -10,9 +10,9 @@ import json, os, re, sys, time
 VERIF = os.path.dirname(os.path.dirname(os.path.abspath(__file__)))
 REPO = os.environ.get('VERIF_REPO', '/repo')
 KNOWN = os.path.join(VERIF, 'known_findings.txt')
-EVID = os.path.join(VERIF, 'evidence')
-WORK = os.path.join(VERIF, 'work')
-CACHE = os.path.join(VERIF, '.cache')
+EVID = os.environ.get('VERIF_EVIDENCE') or os.path.join(VERIF, 'evidence')
+WORK = os.environ.get('VERIF_WORK') or os.path.join(VERIF, 'work')
+CACHE = os.environ.get('VERIF_CACHE') or os.path.join(VERIF, '.cache')
 
 
 class Violation:
